@@ -257,6 +257,8 @@ pub(crate) enum ExprErrorKind {
     EmptyRandomRange(i64),
     #[error("Function {0} is not implemented")]
     FunctionNotImplemented(&'static str),
+    #[error("Variable {0} is used before it has been assigned a value")]
+    VariableNotAssigned(String),
 }
 
 /// Could not construct static iterator
